@@ -7,10 +7,12 @@ pub mod cachemodel;
 pub mod engine;
 pub mod fuzzrun;
 pub mod gen;
+pub mod mock;
 pub mod props;
 pub mod rwire;
 pub mod rzone;
 pub mod seeds;
+pub mod universe;
 pub mod util;
 pub mod wiregen;
 pub mod ztext;
